@@ -782,6 +782,18 @@ def _quotient_candidates(ea, eb):
         return [t]
 
     fa, fb = factors(ea_s), factors(eb_s)
+    # numeric coefficients: 4*m / 2 -> 2*m
+    ca = [f for f in fa if z3.is_int_value(f)]
+    cb = [f for f in fb if z3.is_int_value(f)]
+    if cb:
+        na, nb = 1, 1
+        for f in ca:
+            na *= f.as_long()
+        for f in cb:
+            nb *= f.as_long()
+        if nb != 0 and na % nb == 0:
+            fa = [f for f in fa if not z3.is_int_value(f)] + ([z3.IntVal(na // nb)] if na // nb != 1 else [])
+            fb = [f for f in fb if not z3.is_int_value(f)]
     rest = list(fa)
     ok = True
     for f in fb:
